@@ -191,6 +191,27 @@ def g_sret(tier):
             if rt == 's8': yield mkprog(base + '/copy-cmp', [A(V('sb'), call()), If(B('<', V('sb'), C(0)), one(), two())], funcs=[mk()])
 
 
+def g_ycond(tier):
+    """truth-value conditions whose operand borrows Y (pointer dereference, pointer / array element with a constant, variable or
+    computed index) while Y is live: Y must come back on BOTH ways out of the branch"""
+    one, two = (lambda: A(V('sc'), C(1))), (lambda: A(V('sc'), C(2)))
+    ops = [('dp', lambda: Deref('pp')), ('p2', lambda: Index('pp', C(2))), ('pvb', lambda: Index('pp', V('vb'))), ('avb', lambda: Index('arr', V('vb'))), ('avb+1', lambda: Index('arr', B('&', B('+', V('vb'), C(1)), C(3)))), ('pX', lambda: Index('pp', X))]       # (16-bit elements: known class K05, low byte only)
+    tail = lambda: A(V('vd'), Y)
+    for on, o in ops:
+        base = 'w5/ycond/' + on
+        yield mkprog(base + '/if', [If(o(), one()), tail()])
+        yield mkprog(base + '/if-else', [If(o(), one(), two()), tail()])
+        yield mkprog(base + '/if-not', [If(Un('!', o()), one()), tail()])
+        yield mkprog(base + '/tern', [A(V('sc'), Tern(o(), C(1), C(2))), tail()])
+        yield mkprog(base + '/and', [If(B('&&', o(), V('vc')), one()), tail()])
+        yield mkprog(base + '/and2', [If(B('&&', V('vc'), o()), one()), tail()])
+        yield mkprog(base + '/or2', [If(B('||', V('vc'), o()), one()), tail()])
+        yield mkprog(base + '/while', [A(V('hc'), C(2)), While(B('&&', o(), V('hc')), ExprS(Inc('--', False, V('hc')))), tail()])
+        yield mkprog(base + '/do', [A(V('hc'), C(2)), DoWhile(Block([ExprS(Inc('--', False, V('hc'))), If(B('==', V('hc'), C(0)), Break(), bare=True)]), o()), tail()])
+        yield mkprog(base + '/if-use-y', [If(o(), A(Index('brr', Y), C(1)), A(Index('brr', Y), C(2)))])
+        yield mkprog(base + '/eq0', [If(B('==', o(), C(0)), one()), tail()])
+
+
 def g_wave4(tier):
     yield from g_hwflags(tier)
     yield from g_logic_else(tier)
@@ -201,3 +222,4 @@ def g_wave4(tier):
     yield from g_signflag(tier)
     yield from g_jmp_label(tier)
     yield from g_sret(tier)
+    yield from g_ycond(tier)
